@@ -132,6 +132,12 @@ def RespOk (A : Nat → Attempt → Prop) (s : State) (rs : Resp) (X Z : List Ce
 /-- no byte of a response head -/
 def NoHd (l : List Cell) : Prop := ∀ c ∈ l, ∀ t fin, c ≠ Cell.hd t fin
 
+/-- nobody is connected through socket `k` -/
+def NoConn (s : State) (k : Nat) : Prop := ∀ (c : Nat) (cn : Conn), s.conns[c]? = some cn → cn.sock ≠ some k
+
+/-- the peer's FIN is pending (or has been seen) on socket `k` -/
+def FinAt (s : State) (k : Nat) : Prop := ∃ sk : Sock, s.socks[k]? = some sk ∧ sk.after = .fin
+
 abbrev Focus := Option (Nat × List Cell × List Cell)
 
 def Focus.x (f : Focus) (i : Nat) (rs : Resp) : List Cell :=
@@ -154,6 +160,9 @@ structure ProvF (A : Nat → Attempt → Prop) (s : State) (f : Focus) : Prop wh
   resp : ∀ (i : Nat) (rs : Resp), s.resps[i]? = some rs → RespOk A s rs (f.x i rs) (f.z i rs)
   foc : ∀ r X Z, f = some (r, X, Z) → s.resps[r]? = none → X = []
   heldB : ∀ (k : Nat) (sk : Sock), s.socks[k]? = some sk → NoHd sk.held
+  /-- a trailer loop that stopped at EOF of socket `k`: the FIN stays pending as long as a connection uses `k` -/
+  eofB : ∀ (i : Nat) (rs : Resp) (k : Nat), s.resps[i]? = some rs → rs.eofAt = some k →
+    k < s.socks.length ∧ (FinAt s k ∨ NoConn s k)
 
 abbrev Prov (A : Nat → Attempt → Prop) (s : State) : Prop := ProvF A s none
 
@@ -184,6 +193,11 @@ structure Safe (s s' : State) : Prop where
   /-- what a peer holds back is what it held back in `s`, or free of head bytes -/
   hd : ∀ (k : Nat) (sk' : Sock), s'.socks[k]? = some sk' →
     (∃ sk : Sock, s.socks[k]? = some sk ∧ sk'.held = sk.held) ∨ NoHd sk'.held
+  /-- a FIN stays -/
+  fin : ∀ k : Nat, FinAt s k → FinAt s' k
+  /-- every EOF mark of `s'` is one of `s`, or the FIN is pending now -/
+  eo : ∀ (i : Nat) (rs' : Resp) (k : Nat), s'.resps[i]? = some rs' → rs'.eofAt = some k →
+    (∃ rs : Resp, s.resps[i]? = some rs ∧ rs.eofAt = some k) ∨ FinAt s' k
 
 theorem st_of_eq {s s' : State} (h : s'.resps = s.resps) :
     ∀ (i : Nat) (rs rs' : Resp), s.resps[i]? = some rs → s'.resps[i]? = some rs' →
@@ -196,8 +210,16 @@ theorem hd_of_eq {s s' : State} (h : s'.socks = s.socks) :
       (∃ sk : Sock, s.socks[k]? = some sk ∧ sk'.held = sk.held) ∨ NoHd sk'.held := by
   intro k sk' h1; rw [h] at h1; exact Or.inl ⟨sk', h1, rfl⟩
 
+theorem fin_of_eq {s s' : State} (h : s'.socks = s.socks) : ∀ k : Nat, FinAt s k → FinAt s' k := by
+  intro k ⟨sk, h1, h2⟩; exact ⟨sk, by rw [h]; exact h1, h2⟩
+
+theorem eo_of_eq {s s' : State} (h : s'.resps = s.resps) :
+    ∀ (i : Nat) (rs' : Resp) (k : Nat), s'.resps[i]? = some rs' → rs'.eofAt = some k →
+      (∃ rs : Resp, s.resps[i]? = some rs ∧ rs.eofAt = some k) ∨ FinAt s' k := by
+  intro i rs' k h1 h2; rw [h] at h1; exact Or.inl ⟨rs', h1, h2⟩
+
 theorem Safe.refl (s : State) : Safe s s := by
-  refine ⟨Nat.le_refl _, Nat.le_refl _, st_of_eq rfl, ?_, ?_, ?_, hd_of_eq rfl⟩
+  refine ⟨Nat.le_refl _, Nat.le_refl _, st_of_eq rfl, ?_, ?_, ?_, hd_of_eq rfl, fin_of_eq rfl, eo_of_eq rfl⟩
   · intro i rs' k sk h1 h2 h3; exact ⟨sk, h3, rfl⟩
   · intro i rs' h; exact Or.inl ⟨rs', h, rfl, rfl, rfl, Or.inr ⟨rfl, rfl, rfl, rfl⟩⟩
   · intro c cn' k h1 h2; exact Or.inl ⟨cn', h1, h2, Or.inl rfl⟩
@@ -219,13 +241,19 @@ theorem Safe.noReader {s s' : State} (h : Safe s s') {k : Nat} (n : NoReader s k
   exact n i rs a b
 
 theorem Safe.trans {s t u : State} (a : Safe s t) (b : Safe t u) : Safe s u := by
-  refine ⟨Nat.le_trans a.slen b.slen, Nat.le_trans a.rlen b.rlen, ?_, ?_, ?_, ?_, ?_⟩
-  rotate_right
+  refine ⟨Nat.le_trans a.slen b.slen, Nat.le_trans a.rlen b.rlen, ?_, ?_, ?_, ?_, ?_, fun k h => b.fin k (a.fin k h), ?_⟩
+  rotate_right 2
   · intro k sk' h1
     rcases b.hd k sk' h1 with ⟨sk1, g1, g2⟩ | g
     · rcases a.hd k sk1 g1 with ⟨sk0, g3, g4⟩ | g
       · exact Or.inl ⟨sk0, g3, by rw [g2, g4]⟩
       · exact Or.inr (by rw [g2]; exact g)
+    · exact Or.inr g
+  · intro i rs' k h1 h2
+    rcases b.eo i rs' k h1 h2 with ⟨rt, g1, g2⟩ | g
+    · rcases a.eo i rt k g1 g2 with g | g
+      · exact Or.inl g
+      · exact Or.inr (b.fin k g)
     · exact Or.inr g
   · intro i rs rs' h1 h2
     have hi : i < t.resps.length := by
@@ -284,12 +312,28 @@ theorem Focus.z_congr (f : Focus) (i : Nat) {rs rs' : Resp} (h : rs'.delivered =
 
 /-- the transfer lemma -/
 theorem Safe.prov {A : Nat → Attempt → Prop} {s s' : State} {f : Focus} (h : Safe s s') (p : ProvF A s f) : ProvF A s' f := by
-  refine ⟨?_, ?_, ?_, ?_, ?_, ?_, ?_, ?_⟩
-  rotate_right
+  refine ⟨?_, ?_, ?_, ?_, ?_, ?_, ?_, ?_, ?_⟩
+  rotate_right 2
   · intro k sk' h1
     rcases h.hd k sk' h1 with ⟨sk, g1, g2⟩ | g
     · rw [g2]; exact p.heldB k sk g1
     · exact g
+  · intro i rs' k h1 h2
+    rcases h.eo i rs' k h1 h2 with ⟨rs, g1, g2⟩ | g
+    · obtain ⟨q1, q2⟩ := p.eofB i rs k g1 g2
+      refine ⟨Nat.lt_of_lt_of_le q1 h.slen, ?_⟩
+      rcases q2 with q2 | q2
+      · exact Or.inl (h.fin k q2)
+      · right
+        intro c cn' hc hs
+        rcases h.cn c cn' k hc hs with ⟨cn, g3, g4, _⟩ | ⟨g3, _⟩
+        · exact q2 c cn g3 g4
+        · omega
+    · obtain ⟨sk, g1, g2⟩ := g
+      refine ⟨?_, Or.inl ⟨sk, g1, g2⟩⟩
+      rcases Nat.lt_or_ge k s'.socks.length with h' | h'
+      · exact h'
+      · rw [List.getElem?_eq_none h'] at g1; cases g1
   · intro c cn' k h1 h2
     rcases h.cn c cn' k h1 h2 with ⟨cn, hs, hk, _⟩ | ⟨_, g2, _, _⟩
     · exact Nat.lt_of_lt_of_le (p.sockB c cn k hs hk) h.slen
@@ -353,7 +397,7 @@ theorem Safe.prov {A : Nat → Attempt → Prop} {s s' : State} {f : Focus} (h :
 
 theorem safe_core {s s' : State} (h1 : s'.conns = s.conns) (h2 : s'.resps = s.resps) (h3 : s'.socks = s.socks) :
     Safe s s' := by
-  refine ⟨by rw [h3]; exact Nat.le_refl _, by rw [h2]; exact Nat.le_refl _, st_of_eq h2, ?_, ?_, ?_, hd_of_eq h3⟩
+  refine ⟨by rw [h3]; exact Nat.le_refl _, by rw [h2]; exact Nat.le_refl _, st_of_eq h2, ?_, ?_, ?_, hd_of_eq h3, fin_of_eq h3, eo_of_eq h2⟩
   · intro i rs' k sk _ _ h; exact ⟨sk, by rw [h3]; exact h, rfl⟩
   · intro i rs' h; rw [h2] at h; exact Or.inl ⟨rs', h, rfl, rfl, rfl, Or.inr ⟨rfl, rfl, rfl, rfl⟩⟩
   · intro c cn' k h1' h2'; rw [h1] at h1'; exact Or.inl ⟨cn', h1', h2', Or.inl rfl⟩
@@ -368,9 +412,21 @@ theorem noteClose_safe (s : State) (k : Nat) : Safe s (noteClose s k) := by
 theorem setResp_safe (s : State) (r : Nat) (g : Resp → Resp)
     (hg : ∀ x, (g x).rid = x.rid ∧ (g x).delivered = x.delivered ∧ (g x).isHead = x.isHead ∧
       ((g x).fp = none ∨ ((g x).fp = x.fp ∧ (g x).buf = x.buf ∧ (g x).length = x.length ∧ respPos (g x) = respPos x)))
-    (hst : ∀ x, (g x).status = x.status ∧ (g x).length = x.length ∧ (g x).chunked = x.chunked := by intro x; exact ⟨rfl, rfl, rfl⟩) :
+    (hst : ∀ x, (g x).status = x.status ∧ (g x).length = x.length ∧ (g x).chunked = x.chunked := by intro x; exact ⟨rfl, rfl, rfl⟩)
+    (heo : ∀ x, (g x).eofAt = x.eofAt := by intro x; rfl) :
     Safe s (setResp s r g) := by
-  refine ⟨Nat.le_refl _, by simp [setResp], ?_, ?_, ?_, ?_, hd_of_eq rfl⟩
+  refine ⟨Nat.le_refl _, by simp [setResp], ?_, ?_, ?_, ?_, hd_of_eq rfl, fin_of_eq rfl, ?_⟩
+  rotate_right
+  · intro i rs' k h1 h2
+    simp only [setResp, List.getElem?_modify] at h1
+    cases hx : s.resps[i]? with
+    | none => simp [hx] at h1
+    | some x =>
+      simp [hx] at h1
+      left
+      by_cases hri : r = i
+      · simp [hri] at h1; subst h1; exact ⟨x, rfl, by rw [← heo x]; exact h2⟩
+      · simp [hri] at h1; subst h1; exact ⟨x, rfl, h2⟩
   · intro i rs rs' h1 h2
     simp only [setResp, List.getElem?_modify, h1] at h2
     by_cases hri : r = i
@@ -393,7 +449,7 @@ theorem setResp_safe (s : State) (r : Nat) (g : Resp → Resp)
 theorem setConn_safe (s : State) (c : Nat) (g : Conn → Conn)
     (hg : ∀ x, (g x).sock = none ∨ ((g x).sock = x.sock ∧ (g x).pending = x.pending)) :
     Safe s (setConn s c g) := by
-  refine ⟨Nat.le_refl _, Nat.le_refl _, st_of_eq rfl, ?_, ?_, ?_, hd_of_eq rfl⟩
+  refine ⟨Nat.le_refl _, Nat.le_refl _, st_of_eq rfl, ?_, ?_, ?_, hd_of_eq rfl, fin_of_eq rfl, eo_of_eq rfl⟩
   · intro i rs' k sk _ _ h; exact ⟨sk, h, rfl⟩
   · intro i rs' h; exact Or.inl ⟨rs', h, rfl, rfl, rfl, Or.inr ⟨rfl, rfl, rfl, rfl⟩⟩
   · intro c' cn' k h1 h2
@@ -425,7 +481,7 @@ theorem forget_safe {A : Nat → Attempt → Prop} {f : Focus} {s : State} (p : 
       · rename_i rs hrs
         split
         · rename_i hfp
-          refine ⟨Nat.le_refl _, Nat.le_refl _, st_of_eq rfl, ?_, ?_, ?_, hd_of_eq rfl⟩
+          refine ⟨Nat.le_refl _, Nat.le_refl _, st_of_eq rfl, ?_, ?_, ?_, hd_of_eq rfl, fin_of_eq rfl, eo_of_eq rfl⟩
           · intro i rs' k sk _ _ h; exact ⟨sk, h, rfl⟩
           · intro i rs' h; exact Or.inl ⟨rs', h, rfl, rfl, rfl, Or.inr ⟨rfl, rfl, rfl, rfl⟩⟩
           · intro c' cn' k h1 h2
@@ -537,7 +593,7 @@ theorem markReturned_safe (s : State) (r : Nat) : Safe s (markReturned s r) :=
   setResp_safe s r _ (fun x => ⟨rfl, rfl, rfl, Or.inr ⟨rfl, rfl, rfl, rfl⟩⟩)
 
 theorem appendConn_safe (s : State) (x : Conn) (hx : x.sock = none) : Safe s { s with conns := s.conns ++ [x] } := by
-  refine ⟨Nat.le_refl _, Nat.le_refl _, st_of_eq rfl, ?_, ?_, ?_, hd_of_eq rfl⟩
+  refine ⟨Nat.le_refl _, Nat.le_refl _, st_of_eq rfl, ?_, ?_, ?_, hd_of_eq rfl, fin_of_eq rfl, eo_of_eq rfl⟩
   · intro i rs' k sk _ _ h; exact ⟨sk, h, rfl⟩
   · intro i rs' h; exact Or.inl ⟨rs', h, rfl, rfl, rfl, Or.inr ⟨rfl, rfl, rfl, rfl⟩⟩
   · intro c cn' k h1 h2
@@ -556,7 +612,14 @@ theorem appendConn_safe (s : State) (x : Conn) (hx : x.sock = none) : Safe s { s
 theorem newConn_safe (s : State) : Safe s (newConn s).1 := appendConn_safe s {} rfl
 
 theorem appendSock_safe (s : State) (x : Sock) (hx : x.held = []) : Safe s { s with socks := s.socks ++ [x] } := by
-  refine ⟨by simp, Nat.le_refl _, st_of_eq rfl, ?_, ?_, ?_, ?_⟩
+  refine ⟨by simp, Nat.le_refl _, st_of_eq rfl, ?_, ?_, ?_, ?_, ?fin, eo_of_eq rfl⟩
+  case fin =>
+    intro k ⟨sk, h1, h2⟩
+    have hk : k < s.socks.length := by
+      rcases Nat.lt_or_ge k s.socks.length with h' | h'
+      · exact h'
+      · rw [List.getElem?_eq_none h'] at h1; cases h1
+    exact ⟨sk, by show (s.socks ++ [x])[k]? = some sk; rw [List.getElem?_append_left hk]; exact h1, h2⟩
   rotate_right
   · intro k sk' h1
     have h1' : (s.socks ++ [x])[k]? = some sk' := h1
@@ -585,9 +648,18 @@ theorem appendSock_safe (s : State) (x : Sock) (hx : x.held = []) : Safe s { s w
 
 /-- touching a socket without changing its kernel buffer, or a socket nobody reads from -/
 theorem setSock_safe (s : State) (k : Nat) (g : Sock → Sock) (hg : (∀ x, (g x).inbound = x.inbound) ∨ NoReader s k)
-    (hh : ∀ x, (g x).held = x.held ∨ NoHd (g x).held := by intro x; exact Or.inl rfl) :
+    (hh : ∀ x, (g x).held = x.held ∨ NoHd (g x).held := by intro x; exact Or.inl rfl)
+    (hf : (∀ x : Sock, x.after = .fin → (g x).after = .fin) ∨ ¬ FinAt s k := by left; intro x h; exact h) :
     Safe s (setSock s k g) := by
-  refine ⟨by simp [setSock], Nat.le_refl _, st_of_eq rfl, ?_, ?_, ?_, ?_⟩
+  refine ⟨by simp [setSock], Nat.le_refl _, st_of_eq rfl, ?_, ?_, ?_, ?_, ?fin, eo_of_eq rfl⟩
+  case fin =>
+    intro k' ⟨sk, h1, h2⟩
+    by_cases hkk : k = k'
+    · subst hkk
+      rcases hf with hf | hf
+      · exact ⟨g sk, by simp [setSock, List.getElem?_modify, h1], hf sk h2⟩
+      · exact absurd ⟨sk, h1, h2⟩ hf
+    · exact ⟨sk, by simp [setSock, List.getElem?_modify, h1, hkk], h2⟩
   rotate_right
   · intro k' sk' h1
     simp only [setSock, List.getElem?_modify] at h1
@@ -691,10 +763,11 @@ structure ReadRel (r k : Nat) (s s' : State) (m : List Cell) : Prop where
   stream : ∀ (rs : Resp) (sk : Sock), s.resps[r]? = some rs → s.socks[k]? = some sk →
     ∃ (rs' : Resp) (sk' : Sock), s'.resps[r]? = some rs' ∧ s'.socks[k]? = some sk' ∧
       m ++ rs'.buf ++ sk'.inbound = rs.buf ++ sk.inbound
-  hsame : ∀ sk : Sock, s.socks[k]? = some sk → ∃ sk' : Sock, s'.socks[k]? = some sk' ∧ sk'.held = sk.held
+  hsame : ∀ sk : Sock, s.socks[k]? = some sk → ∃ sk' : Sock, s'.socks[k]? = some sk' ∧ sk'.held = sk.held ∧
+    (sk.after = .fin → sk'.after = .fin)
 
 theorem ReadRel.refl (r k : Nat) (s : State) : ReadRel r k s s [] := by
-  refine ⟨rfl, rfl, rfl, fun _ _ => rfl, fun _ _ => rfl, fun rs h => ⟨rs.buf, h⟩, ?_, fun sk h => ⟨sk, h, rfl⟩⟩
+  refine ⟨rfl, rfl, rfl, fun _ _ => rfl, fun _ _ => rfl, fun rs h => ⟨rs.buf, h⟩, ?_, fun sk h => ⟨sk, h, rfl, id⟩⟩
   intro rs sk h1 h2; exact ⟨rs, sk, h1, h2, rfl⟩
 
 theorem ReadRel.trans {r k : Nat} {s t u : State} {m1 m2 : List Cell} (a : ReadRel r k s t m1) (b : ReadRel r k t u m2) :
@@ -703,9 +776,9 @@ theorem ReadRel.trans {r k : Nat} {s t u : State} {m1 m2 : List Cell} (a : ReadR
     fun i hi => by rw [b.rother i hi, a.rother i hi], fun j hj => by rw [b.sother j hj, a.sother j hj], ?_, ?_, ?_⟩
   rotate_right
   · intro sk h
-    obtain ⟨sk1, g1, g2⟩ := a.hsame sk h
-    obtain ⟨sk2, g3, g4⟩ := b.hsame sk1 g1
-    exact ⟨sk2, g3, by rw [g4, g2]⟩
+    obtain ⟨sk1, g1, g2, g2'⟩ := a.hsame sk h
+    obtain ⟨sk2, g3, g4, g4'⟩ := b.hsame sk1 g1
+    exact ⟨sk2, g3, by rw [g4, g2], fun hf => g4' (g2' hf)⟩
   · intro rs h
     obtain ⟨b1, h1⟩ := a.rsame rs h
     obtain ⟨b2, h2⟩ := b.rsame _ h1
@@ -717,7 +790,7 @@ theorem ReadRel.trans {r k : Nat} {s t u : State} {m1 m2 : List Cell} (a : ReadR
     rw [← e3]; simp only [List.append_assoc] at f3 ⊢; rw [f3]
 
 theorem logEv_readRel (r k : Nat) (s : State) (e : Ev) : ReadRel r k s (logEv s e) [] := by
-  refine ⟨rfl, rfl, rfl, fun _ _ => rfl, fun _ _ => rfl, fun rs h => ⟨rs.buf, h⟩, ?_, fun sk h => ⟨sk, h, rfl⟩⟩
+  refine ⟨rfl, rfl, rfl, fun _ _ => rfl, fun _ _ => rfl, fun rs h => ⟨rs.buf, h⟩, ?_, fun sk h => ⟨sk, h, rfl, id⟩⟩
   intro rs sk h1 h2; exact ⟨rs, sk, h1, h2, rfl⟩
 
 /-- a `recv`: bytes move from the kernel buffer to the private buffer -/
@@ -732,11 +805,12 @@ theorem recvInto_rel (s : State) (r k room : Nat) : ReadRel r k s (recvInto s r 
   split
   · exact ReadRel.refl _ _ _
   · rename_i sk hsk
-    have hafter : ∀ a : After, ReadRel r k t (setSock t k fun x => { x with after := a }) [] := by
-      intro a
+    have hafter : ∀ a : After, sk.after ≠ .fin → ReadRel r k t (setSock t k fun x => { x with after := a }) [] := by
+      intro a hnf
       refine ⟨rfl, rfl, by simp [setSock], fun _ _ => rfl, ?_, fun rs h => ⟨rs.buf, h⟩, ?_, ?_⟩
       rotate_right
-      · intro sk' h; exact ⟨{ sk' with after := a }, by simp [setSock, List.getElem?_modify, h], rfl⟩
+      · intro sk' h; rw [hsk] at h; cases h
+        exact ⟨{ sk with after := a }, by simp [setSock, List.getElem?_modify, hsk], rfl, fun hf => absurd hf hnf⟩
       · intro j hj; simp [setSock, List.getElem?_modify, Ne.symm hj]
       · intro rs sk' h1 h2
         refine ⟨rs, { sk' with after := a }, h1, ?_, rfl⟩
@@ -745,15 +819,15 @@ theorem recvInto_rel (s : State) (r k room : Nat) : ReadRel r k s (recvInto s r 
     · split
       · exact ReadRel.refl _ _ _
       · exact ReadRel.refl _ _ _
-      · exact hafter _
-      · exact hafter _
+      · rename_i haf; exact hafter _ (by rw [haf]; simp)
+      · rename_i haf; exact hafter _ (by rw [haf]; simp)
     · rename_i c cs hin
       simp only
       generalize (if sk.seg = 0 then room else min sk.seg room) = n
       refine ⟨rfl, by simp [setResp, setSock], by simp [setResp, setSock], ?_, ?_, ?_, ?_, ?_⟩
       rotate_right
       · intro sk' h; rw [hsk] at h; cases h
-        exact ⟨{ sk with inbound := sk.inbound.drop n }, by simp [setResp, setSock, List.getElem?_modify, hsk], rfl⟩
+        exact ⟨{ sk with inbound := sk.inbound.drop n }, by simp [setResp, setSock, List.getElem?_modify, hsk], rfl, id⟩
       · intro i hi; simp [setResp, setSock, List.getElem?_modify, Ne.symm hi]
       · intro j hj; simp [setResp, setSock, List.getElem?_modify, Ne.symm hj]
       · intro rs h; exact ⟨rs.buf ++ sk.inbound.take n, by simp [setResp, setSock, List.getElem?_modify, h]⟩
@@ -768,7 +842,7 @@ theorem recvInto_rel (s : State) (r k room : Nat) : ReadRel r k s (recvInto s r 
 theorem setBuf_rel (r k : Nat) (s : State) (rs : Resp) (m : List Cell) (g : Resp → List Cell)
     (h : s.resps[r]? = some rs) (hb : rs.buf = m ++ g rs) :
     ReadRel r k s (setResp s r fun x => { x with buf := g x }) m := by
-  refine ⟨rfl, by simp [setResp], rfl, ?_, fun _ _ => rfl, ?_, ?_, fun sk h => ⟨sk, h, rfl⟩⟩
+  refine ⟨rfl, by simp [setResp], rfl, ?_, fun _ _ => rfl, ?_, ?_, fun sk h => ⟨sk, h, rfl, id⟩⟩
   · intro i hi; simp [setResp, List.getElem?_modify, Ne.symm hi]
   · intro rs' h'; rw [h] at h'; cases h'
     exact ⟨g rs, by simp [setResp, List.getElem?_modify, h]⟩
@@ -876,7 +950,7 @@ theorem provF_refocus {A : Nat → Attempt → Prop} {s : State} {f g : Focus} (
     (h : ∀ i rs, s.resps[i]? = some rs → RespOk A s rs (f.x i rs) (f.z i rs) → RespOk A s rs (g.x i rs) (g.z i rs))
     (hg : ∀ r X Z, g = some (r, X, Z) → s.resps[r]? = none → X = []) :
     ProvF A s g :=
-  ⟨p.sockB, p.fpB, p.sockInj, p.pend, p.fpInj, fun i rs hi => h i rs hi (p.resp i rs hi), hg, p.heldB⟩
+  ⟨p.sockB, p.fpB, p.sockInj, p.pend, p.fpInj, fun i rs hi => h i rs hi (p.resp i rs hi), hg, p.heldB, p.eofB⟩
 
 theorem respOk_closed {A : Nat → Attempt → Prop} {s : State} {rs : Resp} {X Z : List Cell} (X' Z' : List Cell)
     (h : RespOk A s rs X Z) (hc : rs.fp = none) (hx : X' = X ∨ X' = rs.delivered) : RespOk A s rs X' Z' := by
@@ -955,15 +1029,17 @@ structure ReadRelP (r k : Nat) (s s' : State) (m : List Cell) : Prop where
   sother : ∀ j, j ≠ k → s'.socks[j]? = s.socks[j]?
   rsame : ∀ rs : Resp, s.resps[r]? = some rs → ∃ rs' : Resp, s'.resps[r]? = some rs' ∧ rs'.rid = rs.rid ∧
     rs'.delivered = rs.delivered ∧ rs'.isHead = rs.isHead ∧ rs'.fp = rs.fp ∧ rs'.status = rs.status ∧
-    rs'.chunked = rs.chunked ∧ rs'.length = rs.length ∧ rs'.conn = rs.conn ∧ rs'.hasPool = rs.hasPool
+    rs'.chunked = rs.chunked ∧ rs'.length = rs.length ∧ rs'.conn = rs.conn ∧ rs'.hasPool = rs.hasPool ∧
+    rs'.eofAt = rs.eofAt
   stream : ∀ (rs : Resp) (sk : Sock), s.resps[r]? = some rs → s.socks[k]? = some sk →
     ∃ (rs' : Resp) (sk' : Sock), s'.resps[r]? = some rs' ∧ s'.socks[k]? = some sk' ∧
       m ++ rs'.buf ++ sk'.inbound = rs.buf ++ sk.inbound
-  hsame : ∀ sk : Sock, s.socks[k]? = some sk → ∃ sk' : Sock, s'.socks[k]? = some sk' ∧ sk'.held = sk.held
+  hsame : ∀ sk : Sock, s.socks[k]? = some sk → ∃ sk' : Sock, s'.socks[k]? = some sk' ∧ sk'.held = sk.held ∧
+    (sk.after = .fin → sk'.after = .fin)
 
 theorem ReadRel.toP {r k : Nat} {s s' : State} {m : List Cell} (h : ReadRel r k s s' m) : ReadRelP r k s s' m :=
   ⟨h.conns, h.rlen, h.slen, h.rother, h.sother,
-    fun rs hr => by obtain ⟨b, hb⟩ := h.rsame rs hr; exact ⟨_, hb, rfl, rfl, rfl, rfl, rfl, rfl, rfl, rfl, rfl⟩,
+    fun rs hr => by obtain ⟨b, hb⟩ := h.rsame rs hr; exact ⟨_, hb, rfl, rfl, rfl, rfl, rfl, rfl, rfl, rfl, rfl, rfl⟩,
     h.stream, h.hsame⟩
 
 theorem ReadRelP.refl (r k : Nat) (s : State) : ReadRelP r k s s [] := (ReadRel.refl r k s).toP
@@ -973,31 +1049,32 @@ theorem ReadRelP.trans {r k : Nat} {s t u : State} {m1 m2 : List Cell} (a : Read
   refine ⟨by rw [b.conns, a.conns], by rw [b.rlen, a.rlen], by rw [b.slen, a.slen],
     fun i hi => by rw [b.rother i hi, a.rother i hi], fun j hj => by rw [b.sother j hj, a.sother j hj], ?_, ?_, ?_⟩
   · intro rs h
-    obtain ⟨r1, h1, a1, a2, a3, a4, a5, a6, a7, a8, a9⟩ := a.rsame rs h
-    obtain ⟨r2, h2, b1, b2, b3, b4, b5, b6, b7, b8, b9⟩ := b.rsame r1 h1
+    obtain ⟨r1, h1, a1, a2, a3, a4, a5, a6, a7, a8, a9, a10⟩ := a.rsame rs h
+    obtain ⟨r2, h2, b1, b2, b3, b4, b5, b6, b7, b8, b9, b10⟩ := b.rsame r1 h1
     exact ⟨r2, h2, by rw [b1, a1], by rw [b2, a2], by rw [b3, a3], by rw [b4, a4], by rw [b5, a5], by rw [b6, a6],
-      by rw [b7, a7], by rw [b8, a8], by rw [b9, a9]⟩
+      by rw [b7, a7], by rw [b8, a8], by rw [b9, a9], by rw [b10, a10]⟩
   · intro rs sk h1 h2
     obtain ⟨rt, st, e1, e2, e3⟩ := a.stream rs sk h1 h2
     obtain ⟨ru, su, f1, f2, f3⟩ := b.stream rt st e1 e2
     refine ⟨ru, su, f1, f2, ?_⟩
     rw [← e3]; simp only [List.append_assoc] at f3 ⊢; rw [f3]
   · intro sk h
-    obtain ⟨sk1, g1, g2⟩ := a.hsame sk h
-    obtain ⟨sk2, g3, g4⟩ := b.hsame sk1 g1
-    exact ⟨sk2, g3, by rw [g4, g2]⟩
+    obtain ⟨sk1, g1, g2, g2'⟩ := a.hsame sk h
+    obtain ⟨sk2, g3, g4, g4'⟩ := b.hsame sk1 g1
+    exact ⟨sk2, g3, by rw [g4, g2], fun hf => g4' (g2' hf)⟩
 
 /-- updating the chunk-parser fields of reader `r` -/
 theorem setParse_relP (r k : Nat) (s : State) (g : Resp → Resp)
     (hg : ∀ x, (g x).rid = x.rid ∧ (g x).delivered = x.delivered ∧ (g x).isHead = x.isHead ∧ (g x).fp = x.fp ∧
       (g x).status = x.status ∧ (g x).chunked = x.chunked ∧ (g x).length = x.length ∧ (g x).conn = x.conn ∧
-      (g x).hasPool = x.hasPool ∧ (g x).buf = x.buf) :
+      (g x).hasPool = x.hasPool ∧ (g x).buf = x.buf)
+    (heo : ∀ x, (g x).eofAt = x.eofAt := by intro x; rfl) :
     ReadRelP r k s (setResp s r g) [] := by
-  refine ⟨rfl, by simp [setResp], rfl, ?_, fun _ _ => rfl, ?_, ?_, fun sk h => ⟨sk, h, rfl⟩⟩
+  refine ⟨rfl, by simp [setResp], rfl, ?_, fun _ _ => rfl, ?_, ?_, fun sk h => ⟨sk, h, rfl, id⟩⟩
   · intro i hi; simp [setResp, List.getElem?_modify, Ne.symm hi]
   · intro rs h
     obtain ⟨g1, g2, g3, g4, g5, g6, g7, g8, g9, _⟩ := hg rs
-    exact ⟨g rs, by simp [setResp, List.getElem?_modify, h], g1, g2, g3, g4, g5, g6, g7, g8, g9⟩
+    exact ⟨g rs, by simp [setResp, List.getElem?_modify, h], g1, g2, g3, g4, g5, g6, g7, g8, g9, heo rs⟩
   · intro rs sk h1 h2
     exact ⟨g rs, sk, by simp [setResp, List.getElem?_modify, h1], h2, by simp [(hg rs).2.2.2.2.2.2.2.2.2]⟩
 
@@ -1011,8 +1088,15 @@ theorem read_core {A : Nat → Attempt → Prop} {s s' : State} {r k : Nat} {X X
       X' <+: deliverable rs.rid a h ∧ (∀ n, lenBound h rs.isHead = some n → X'.length ≤ n) ∧
       Expect rs.rid a h (respPos rs') X' (Rem.drop m.length)) :
     ProvF A s' (some (r, X', Z)) := by
-  obtain ⟨rs1, hb, a1, a2, a3, a4, a5, a6, a7, _, _⟩ := rel.rsame rs hr
+  obtain ⟨rs1, hb, a1, a2, a3, a4, a5, a6, a7, _, _, a10⟩ := rel.rsame rs hr
   rw [hr'] at hb; cases hb
+  have hfin : ∀ j, FinAt s j → FinAt s' j := by
+    intro j ⟨sk, h1, h2⟩
+    by_cases hjk : j = k
+    · subst hjk
+      obtain ⟨sk', g1, _, g3⟩ := rel.hsame sk h1
+      exact ⟨sk', g1, g3 h2⟩
+    · exact ⟨sk, by rw [rel.sother j hjk]; exact h1, h2⟩
   have hfp : ∀ (i : Nat) (ri : Resp), s'.resps[i]? = some ri → ∃ rs0 : Resp, s.resps[i]? = some rs0 ∧ ri.fp = rs0.fp := by
     intro i ri hi
     by_cases hir : i = r
@@ -1020,8 +1104,8 @@ theorem read_core {A : Nat → Attempt → Prop} {s s' : State} {r k : Nat} {X X
       rw [hr'] at hi; cases hi
       exact ⟨rs, hr, a4⟩
     · rw [rel.rother i hir] at hi; exact ⟨ri, hi, rfl⟩
-  refine ⟨?_, ?_, ?_, ?_, ?_, ?_, ?_, ?_⟩
-  rotate_right 2
+  refine ⟨?_, ?_, ?_, ?_, ?_, ?_, ?_, ?_, ?_⟩
+  rotate_right 3
   · intro r' X'' Z' h hn
     cases h
     rw [hr'] at hn; cases hn
@@ -1029,10 +1113,23 @@ theorem read_core {A : Nat → Attempt → Prop} {s s' : State} {r k : Nat} {X X
     by_cases hkk : k' = k
     · subst hkk
       have hkb : k' < s.socks.length := p.fpB r rs k' hr hk
-      obtain ⟨sk0, g1, g2⟩ := rel.hsame _ (List.getElem?_eq_getElem hkb)
+      obtain ⟨sk0, g1, g2, _⟩ := rel.hsame _ (List.getElem?_eq_getElem hkb)
       rw [h1] at g1; cases g1
       rw [g2]; exact p.heldB k' _ (List.getElem?_eq_getElem hkb)
     · rw [rel.sother k' hkk] at h1; exact p.heldB k' sk' h1
+  · intro i ri k' h1 h2
+    have hold : ∃ r0 : Resp, s.resps[i]? = some r0 ∧ r0.eofAt = some k' := by
+      by_cases hir : i = r
+      · subst hir
+        rw [hr'] at h1; cases h1
+        exact ⟨rs, hr, by rw [← a10]; exact h2⟩
+      · rw [rel.rother i hir] at h1; exact ⟨ri, h1, h2⟩
+    obtain ⟨r0, g1, g2⟩ := hold
+    obtain ⟨q1, q2⟩ := p.eofB i r0 k' g1 g2
+    refine ⟨by rw [rel.slen]; exact q1, ?_⟩
+    rcases q2 with q2 | q2
+    · exact Or.inl (hfin k' q2)
+    · exact Or.inr (by intro c cn hc; rw [rel.conns] at hc; exact q2 c cn hc)
   · intro c cn k' h1 h2; rw [rel.conns] at h1; rw [rel.slen]; exact p.sockB c cn k' h1 h2
   · intro i ri k' h1 h2
     obtain ⟨rs0, h0, e⟩ := hfp i ri h1
@@ -1114,9 +1211,18 @@ theorem read_prov {A : Nat → Attempt → Prop} {s s' : State} {r k : Nat} {X m
 theorem provF_resps {A : Nat → Attempt → Prop} {s s' : State} {f g : Focus} (p : ProvF A s f)
     (hc : s'.conns = s.conns) (hs : s'.socks = s.socks)
     (h : ∀ (i : Nat) (rs' : Resp), s'.resps[i]? = some rs' → ∃ rs : Resp, s.resps[i]? = some rs ∧ rs'.fp = rs.fp ∧
+      rs'.eofAt = rs.eofAt ∧
       (RespOk A s rs (f.x i rs) (f.z i rs) → RespOk A s' rs' (g.x i rs') (g.z i rs')))
     (hg : ∀ r X Z, g = some (r, X, Z) → s'.resps[r]? = none → X = []) : ProvF A s' g := by
-  refine ⟨?_, ?_, ?_, ?_, ?_, ?_, hg, by rw [hs]; exact p.heldB⟩
+  refine ⟨?_, ?_, ?_, ?_, ?_, ?_, hg, by rw [hs]; exact p.heldB, ?_⟩
+  rotate_right
+  · intro i rs' k' h1 h2
+    obtain ⟨rs0, h0, _, e, _⟩ := h i rs' h1
+    obtain ⟨q1, q2⟩ := p.eofB i rs0 k' h0 (by rw [← e]; exact h2)
+    refine ⟨by rw [hs]; exact q1, ?_⟩
+    rcases q2 with ⟨sk, g1, g2⟩ | q2
+    · exact Or.inl ⟨sk, by rw [hs]; exact g1, g2⟩
+    · exact Or.inr (by intro c cn hc'; rw [hc] at hc'; exact q2 c cn hc')
   · intro c cn k' h1 h2; rw [hc] at h1; rw [hs]; exact p.sockB c cn k' h1 h2
   · intro i rs' k' h1 h2
     obtain ⟨rs0, h0, e, _⟩ := h i rs' h1
@@ -1131,7 +1237,7 @@ theorem provF_resps {A : Nat → Attempt → Prop} {s s' : State} {f g : Focus} 
     obtain ⟨q2, g2, e2, _⟩ := h j r2 h2
     exact p.fpInj i j q1 q2 k' g1 g2 (by rw [← e1]; exact h3) (by rw [← e2]; exact h4)
   · intro i rs' hi
-    obtain ⟨rs0, h0, _, e⟩ := h i rs' hi
+    obtain ⟨rs0, h0, _, _, e⟩ := h i rs' hi
     exact e (p.resp i rs0 h0)
 
 theorem respOk_socks {A : Nat → Attempt → Prop} {s s' : State} {rs : Resp} {X Z : List Cell} (hs : s'.socks = s.socks)
@@ -1154,7 +1260,7 @@ theorem setlen_prov {A : Nat → Attempt → Prop} {s : State} {r : Nat} {X Z : 
   by_cases hir : r = i
   · subst hir
     simp [hr] at hi; subst hi
-    refine ⟨rs, hr, rfl, ?_⟩
+    refine ⟨rs, hr, rfl, rfl, ?_⟩
     simp only [Focus.x, Focus.z, if_true]
     rintro (h | ⟨a, hd, fr⟩)
     · exact Or.inl h
@@ -1171,7 +1277,7 @@ theorem setlen_prov {A : Nat → Attempt → Prop} {s : State} {r : Nat} {X Z : 
     | none => simp [hx] at hi
     | some x =>
       simp [hx, hir] at hi; subst hi
-      refine ⟨x, rfl, rfl, ?_⟩
+      refine ⟨x, rfl, rfl, rfl, ?_⟩
       have : i ≠ r := Ne.symm hir
       simp only [Focus.x, Focus.z, this, if_false]
       exact respOk_socks rfl
@@ -1188,7 +1294,7 @@ theorem deliver_prov {A : Nat → Attempt → Prop} {s : State} {r : Nat} {d : L
     | none => simp [hx] at hi
     | some rs =>
       simp [hx] at hi; subst hi
-      refine ⟨rs, rfl, rfl, ?_⟩
+      refine ⟨rs, rfl, rfl, rfl, ?_⟩
       simp only [Focus.x, Focus.z, if_true, delivOf, hx]
       rintro (⟨h1, h2, h3⟩ | ⟨a, hd, fr⟩)
       · -- a closed, empty reader: nothing was read
@@ -1201,7 +1307,7 @@ theorem deliver_prov {A : Nat → Attempt → Prop} {s : State} {r : Nat} {d : L
     | none => simp [hx] at hi
     | some x =>
       simp [hx, hir] at hi; subst hi
-      refine ⟨x, rfl, rfl, ?_⟩
+      refine ⟨x, rfl, rfl, rfl, ?_⟩
       have : i ≠ r := Ne.symm hir
       simp only [Focus.x, Focus.z, this, if_false]
       exact respOk_socks rfl
@@ -1454,14 +1560,24 @@ structure Dirty (r k : Nat) (s s' : State) : Prop where
   sother : ∀ j, j ≠ k → s'.socks[j]? = s.socks[j]?
   rsame : ∀ rs : Resp, s.resps[r]? = some rs → ∃ rs' : Resp, s'.resps[r]? = some rs' ∧ rs'.rid = rs.rid ∧
     rs'.delivered = rs.delivered ∧ rs'.isHead = rs.isHead ∧ (rs'.fp = rs.fp ∨ rs'.fp = none) ∧ rs'.status = rs.status ∧
-    rs'.chunked = rs.chunked ∧ rs'.length = rs.length ∧ rs'.conn = rs.conn ∧ rs'.hasPool = rs.hasPool
-  hsame : ∀ sk : Sock, s.socks[k]? = some sk → ∃ sk' : Sock, s'.socks[k]? = some sk' ∧ sk'.held = sk.held
+    rs'.chunked = rs.chunked ∧ rs'.length = rs.length ∧ rs'.conn = rs.conn ∧ rs'.hasPool = rs.hasPool ∧
+    (∀ k', rs'.eofAt = some k' → rs.eofAt = some k' ∨ (k' = k ∧ FinAt s' k'))
+  hsame : ∀ sk : Sock, s.socks[k]? = some sk → ∃ sk' : Sock, s'.socks[k]? = some sk' ∧ sk'.held = sk.held ∧
+    (sk.after = .fin → sk'.after = .fin)
+
+theorem Dirty.fin {r k : Nat} {s s' : State} (d : Dirty r k s s') : ∀ j, FinAt s j → FinAt s' j := by
+  intro j ⟨sk, h1, h2⟩
+  by_cases hjk : j = k
+  · subst hjk
+    obtain ⟨sk', g1, _, g3⟩ := d.hsame sk h1
+    exact ⟨sk', g1, g3 h2⟩
+  · exact ⟨sk, by rw [d.sother j hjk]; exact h1, h2⟩
 
 theorem ReadRelP.dirty {r k : Nat} {s s' : State} {m : List Cell} (h : ReadRelP r k s s' m) : Dirty r k s s' :=
   ⟨h.conns, h.rlen, h.slen, h.rother, h.sother,
     fun rs hr => by
-      obtain ⟨rs', h1, a1, a2, a3, a4, a5, a6, a7, a8, a9⟩ := h.rsame rs hr
-      exact ⟨rs', h1, a1, a2, a3, Or.inl a4, a5, a6, a7, a8, a9⟩,
+      obtain ⟨rs', h1, a1, a2, a3, a4, a5, a6, a7, a8, a9, a10⟩ := h.rsame rs hr
+      exact ⟨rs', h1, a1, a2, a3, Or.inl a4, a5, a6, a7, a8, a9, fun k' hk' => Or.inl (by rw [← a10]; exact hk')⟩,
     h.hsame⟩
 
 theorem Dirty.refl (r k : Nat) (s : State) : Dirty r k s s := (ReadRelP.refl r k s).dirty
@@ -1470,19 +1586,25 @@ theorem Dirty.trans {r k : Nat} {s t u : State} (a : Dirty r k s t) (b : Dirty r
   refine ⟨by rw [b.conns, a.conns], by rw [b.rlen, a.rlen], by rw [b.slen, a.slen],
     fun i hi => by rw [b.rother i hi, a.rother i hi], fun j hj => by rw [b.sother j hj, a.sother j hj], ?_, ?_⟩
   · intro rs h
-    obtain ⟨r1, h1, a1, a2, a3, a4, a5, a6, a7, a8, a9⟩ := a.rsame rs h
-    obtain ⟨r2, h2, b1, b2, b3, b4, b5, b6, b7, b8, b9⟩ := b.rsame r1 h1
+    obtain ⟨r1, h1, a1, a2, a3, a4, a5, a6, a7, a8, a9, a10⟩ := a.rsame rs h
+    obtain ⟨r2, h2, b1, b2, b3, b4, b5, b6, b7, b8, b9, b10⟩ := b.rsame r1 h1
     refine ⟨r2, h2, by rw [b1, a1], by rw [b2, a2], by rw [b3, a3], ?_, by rw [b5, a5], by rw [b6, a6], by rw [b7, a7],
-      by rw [b8, a8], by rw [b9, a9]⟩
-    rcases b4 with b4 | b4
-    · rcases a4 with a4 | a4
-      · exact Or.inl (by rw [b4, a4])
-      · exact Or.inr (by rw [b4, a4])
-    · exact Or.inr b4
+      by rw [b8, a8], by rw [b9, a9], ?_⟩
+    · rcases b4 with b4 | b4
+      · rcases a4 with a4 | a4
+        · exact Or.inl (by rw [b4, a4])
+        · exact Or.inr (by rw [b4, a4])
+      · exact Or.inr b4
+    · intro k' hk'
+      rcases b10 k' hk' with g | g
+      · rcases a10 k' g with g' | ⟨g1, g2⟩
+        · exact Or.inl g'
+        · exact Or.inr ⟨g1, b.fin k' g2⟩
+      · exact Or.inr g
   · intro sk h
-    obtain ⟨sk1, g1, g2⟩ := a.hsame sk h
-    obtain ⟨sk2, g3, g4⟩ := b.hsame sk1 g1
-    exact ⟨sk2, g3, by rw [g4, g2]⟩
+    obtain ⟨sk1, g1, g2, g2'⟩ := a.hsame sk h
+    obtain ⟨sk2, g3, g4, g4'⟩ := b.hsame sk1 g1
+    exact ⟨sk2, g3, by rw [g4, g2], fun hf => g4' (g2' hf)⟩
 
 /-- once the reader is closed, whatever it did to its own buffers no longer matters -/
 theorem dirty_safe {r k : Nat} {s0 s1 t : State} (d : Dirty r k s0 s1)
@@ -1497,10 +1619,28 @@ theorem dirty_safe {r k : Nat} {s0 s1 t : State} (d : Dirty r k s0 s1)
     intro i rs h
     by_cases hir : i = r
     · subst hir
-      obtain ⟨r1, h1, a1, a2, a3, _, a5, a6, a7, _, _⟩ := d.rsame rs h
+      obtain ⟨r1, h1, a1, a2, a3, _, a5, a6, a7, _, _, _⟩ := d.rsame rs h
       exact ⟨r1, h1, a1, a2, a3, a5, a6, a7⟩
     · exact ⟨rs, by rw [d.rother i hir]; exact h, rfl, rfl, rfl, rfl, rfl, rfl⟩
-  refine ⟨by rw [← d.slen]; exact st.slen, by rw [← d.rlen]; exact st.rlen, ?_, ?_, ?_, ?_, ?_⟩
+  refine ⟨by rw [← d.slen]; exact st.slen, by rw [← d.rlen]; exact st.rlen, ?_, ?_, ?_, ?_, ?_,
+    fun j h => st.fin j (d.fin j h), ?eo⟩
+  case eo =>
+    intro i rs' k' h1 h2
+    rcases st.eo i rs' k' h1 h2 with ⟨rs1, g1, g2⟩ | g
+    · by_cases hir : i = r
+      · subst hir
+        have hi0 : i < s0.resps.length := by
+          rw [← d.rlen]
+          rcases Nat.lt_or_ge i s1.resps.length with h' | h'
+          · exact h'
+          · rw [List.getElem?_eq_none h'] at g1; cases g1
+        obtain ⟨r1, h1', _, _, _, _, _, _, _, _, _, a10⟩ := d.rsame _ (List.getElem?_eq_getElem hi0)
+        rw [g1] at h1'; cases h1'
+        rcases a10 k' g2 with g' | ⟨_, g'⟩
+        · exact Or.inl ⟨_, List.getElem?_eq_getElem hi0, g'⟩
+        · exact Or.inr (st.fin k' g')
+      · exact Or.inl ⟨rs1, lift i rs1 g1 hir, g2⟩
+    · exact Or.inr g
   · intro i rs rs' h1 h2
     obtain ⟨rs1, g1, _, _, _, g5, g6, g7⟩ := rlt i rs h1
     obtain ⟨b1, b2, b3⟩ := st.st i rs1 rs' g1 h2
@@ -1523,7 +1663,7 @@ theorem dirty_safe {r k : Nat} {s0 s1 t : State} (d : Dirty r k s0 s1)
           rcases Nat.lt_or_ge i s1.resps.length with h' | h'
           · exact h'
           · rw [List.getElem?_eq_none h'] at g1; cases g1
-        obtain ⟨r1, h1', a1, a2, a3, _, _, _, _, _, _⟩ := d.rsame _ (List.getElem?_eq_getElem hi0)
+        obtain ⟨r1, h1', a1, a2, a3, _, _, _, _, _, _, _⟩ := d.rsame _ (List.getElem?_eq_getElem hi0)
         rw [g1] at h1'; cases h1'
         exact ⟨_, List.getElem?_eq_getElem hi0, by rw [e1, a1], by rw [e2, a2], by rw [e3, a3], Or.inl (hc rs' h1)⟩
       · exact ⟨rs1, lift i rs1 g1 hir, e1, e2, e3, e4⟩
@@ -1548,7 +1688,7 @@ theorem dirty_safe {r k : Nat} {s0 s1 t : State} (d : Dirty r k s0 s1)
           rcases Nat.lt_or_ge k' s1.socks.length with h' | h'
           · exact h'
           · rw [List.getElem?_eq_none h'] at g1; cases g1
-        obtain ⟨sk2, q1, q2⟩ := d.hsame _ (List.getElem?_eq_getElem hk0)
+        obtain ⟨sk2, q1, q2, _⟩ := d.hsame _ (List.getElem?_eq_getElem hk0)
         rw [g1] at q1; cases q1
         exact ⟨_, List.getElem?_eq_getElem hk0, by rw [g2, q2]⟩
       · exact ⟨sk1, by rw [← d.sother k' hkk]; exact g1, g2⟩
@@ -1706,10 +1846,11 @@ theorem closeFp_dirty (s : State) (r k : Nat) : Dirty r k s (closeFp s r) := by
         intro k'; unfold noteClose; split <;> exact ⟨rfl, rfl, rfl⟩
       rename_i k' _
       obtain ⟨e1, e2, e3⟩ := e k'
-      refine ⟨e1, by rw [e2]; simp [setResp], by rw [e3], ?_, fun j _ => by rw [e3], ?_, fun sk h => ⟨sk, by rw [e3]; exact h, rfl⟩⟩
+      refine ⟨e1, by rw [e2]; simp [setResp], by rw [e3], ?_, fun j _ => by rw [e3], ?_, fun sk h => ⟨sk, by rw [e3]; exact h, rfl, id⟩⟩
       · intro i hi; rw [e2]; simp [setResp, List.getElem?_modify, Ne.symm hi]
       · intro rs h; rw [h0] at h; cases h
-        exact ⟨{ x with fp := none, buf := [] }, by rw [e2]; simp [setResp, List.getElem?_modify, h0], rfl, rfl, rfl, Or.inr rfl, rfl, rfl, rfl, rfl, rfl⟩
+        exact ⟨{ x with fp := none, buf := [] }, by rw [e2]; simp [setResp, List.getElem?_modify, h0], rfl, rfl, rfl, Or.inr rfl, rfl, rfl, rfl, rfl, rfl,
+          fun k' hk' => Or.inl hk'⟩
 
 theorem updateChunkLength_shape (s : State) (r k : Nat) :
     ∃ s1, Dirty r k s s1 ∧ Safe s1 (updateChunkLength s r k).1 := by
@@ -1789,8 +1930,9 @@ theorem safeRead_dirty (s : State) (r k n : Nat) : Dirty r k s (safeRead s r k n
 theorem setParse_dirty (r k : Nat) (s : State) (g : Resp → Resp)
     (hg : ∀ x, (g x).rid = x.rid ∧ (g x).delivered = x.delivered ∧ (g x).isHead = x.isHead ∧ (g x).fp = x.fp ∧
       (g x).status = x.status ∧ (g x).chunked = x.chunked ∧ (g x).length = x.length ∧ (g x).conn = x.conn ∧
-      (g x).hasPool = x.hasPool ∧ (g x).buf = x.buf) : Dirty r k s (setResp s r g) :=
-  (setParse_relP r k s g hg).dirty
+      (g x).hasPool = x.hasPool ∧ (g x).buf = x.buf)
+    (heo : ∀ x, (g x).eofAt = x.eofAt := by intro x; rfl) : Dirty r k s (setResp s r g) :=
+  (setParse_relP r k s g hg heo).dirty
 
 theorem handleChunk_dirty (s : State) (r k amt : Nat) : Dirty r k s (handleChunk s r k amt).1 := by
   unfold handleChunk
@@ -1818,6 +1960,57 @@ theorem handleChunk_dirty (s : State) (r k amt : Nat) : Dirty r k s (handleChunk
         | exc e => exact d1.trans d2
         | data d' =>
           exact (d1.trans d2).trans (setParse_dirty r k s2 _ (fun x => ⟨rfl, rfl, rfl, rfl, rfl, rfl, rfl, rfl, rfl, rfl⟩))
+
+/-- a successful `_update_chunk_length` only moved bytes and the parser (the reader stays open) -/
+theorem updateChunkLength_relP {s s' : State} {r k : Nat} (h : updateChunkLength s r k = (s', none)) :
+    ∃ m, ReadRelP r k s s' m := by
+  unfold updateChunkLength at h
+  split at h
+  · cases h; exact ⟨[], ReadRelP.refl _ _ _⟩
+  · generalize hfr : fpReadline (inboundLen s k + 2) s r k [] = res at h
+    obtain ⟨s1, o⟩ := res
+    obtain ⟨m, rel, _⟩ := fpReadline_rel _ _ _ _ _ _ _ hfr
+    cases o with
+    | exc e => cases h
+    | data line =>
+      dsimp only at h
+      split at h
+      · cases h
+        exact ⟨m ++ [], rel.toP.trans (setParse_relP r k s1 _ (fun x => ⟨rfl, rfl, rfl, rfl, rfl, rfl, rfl, rfl, rfl, rfl⟩))⟩
+      · cases h
+
+/-- … and so did a successful `_handle_chunk` -/
+theorem handleChunk_relP {s s' : State} {r k amt : Nat} {d : List Cell} (h : handleChunk s r k amt = (s', .data d)) :
+    ∃ m, ReadRelP r k s s' m := by
+  unfold handleChunk at h
+  split at h
+  · cases h; exact ⟨[], ReadRelP.refl _ _ _⟩
+  · split at h
+    · generalize hsr : safeRead s r k amt = res at h
+      obtain ⟨s1, o⟩ := res
+      obtain ⟨m, rel, _⟩ := safeRead_rel hsr
+      cases o with
+      | exc e => cases h
+      | data d0 =>
+        cases h
+        exact ⟨m ++ [], rel.toP.trans (setParse_relP r k s1 _ (fun x => ⟨rfl, rfl, rfl, rfl, rfl, rfl, rfl, rfl, rfl, rfl⟩))⟩
+    · rename_i cl _ _
+      generalize hsr : safeRead s r k cl = res at h
+      obtain ⟨s1, o⟩ := res
+      obtain ⟨m1, rel1, _⟩ := safeRead_rel hsr
+      cases o with
+      | exc e => cases h
+      | data d0 =>
+        dsimp only at h
+        generalize hsr2 : safeRead s1 r k 2 = res2 at h
+        obtain ⟨s2, o2⟩ := res2
+        obtain ⟨m2, rel2, _⟩ := safeRead_rel hsr2
+        cases o2 with
+        | exc e => cases h
+        | data d2 =>
+          cases h
+          exact ⟨m1 ++ m2 ++ [], (rel1.trans rel2).toP.trans
+            (setParse_relP r k s2 _ (fun x => ⟨rfl, rfl, rfl, rfl, rfl, rfl, rfl, rfl, rfl, rfl⟩))⟩
 
 theorem handleChunk_prov {A : Nat → Attempt → Prop} {s s' : State} {r k amt j : Nat} {X Z d : List Cell} {rs : Resp}
     (p : ProvF A s (some (r, X, Z))) (hr : s.resps[r]? = some rs) (hk : rs.fp = some k)
@@ -1973,6 +2166,88 @@ theorem chunkLoop_prov {A : Nat → Attempt → Prop} {r k amt : Nat} : ∀ (fue
           exact ih (deliver s2 r d) s' _ out _ p3 (deliver_resp_at d hr2) (by show rs2.fp = some k; rw [b4]; exact hk1)
             (by show rs2.chunked = true; rw [b6, a6]; exact hch) (by show rs2.isHead = false; rw [b3, a3]; exact hnh) h
 
+/-! ### a trailer loop that ends at EOF: the peer's FIN is pending on the socket -/
+
+theorem eolIdx_pos : ∀ (l : List Cell) (i n : Nat), eolIdx l i = some n → i < n ∧ n ≤ i + l.length := by
+  intro l
+  induction l with
+  | nil => intro i n h; simp [eolIdx] at h
+  | cons c t ih =>
+    intro i n h
+    simp only [eolIdx] at h
+    split at h
+    · cases h; simp
+    · obtain ⟨g1, g2⟩ := ih (i + 1) n h
+      simp; omega
+
+theorem recvInto_eof_fin {s s' : State} {r k room : Nat} (h : recvInto s r k room = (s', .eof)) :
+    FinAt s' k ∧ s'.resps = s.resps := by
+  unfold recvInto at h
+  dsimp only at h
+  split at h
+  · cases h
+  · rename_i sk hsk
+    split at h
+    · rename_i hin
+      split at h
+      · rename_i haf
+        cases h
+        exact ⟨⟨sk, hsk, haf⟩, rfl⟩
+      · cases h
+      · cases h
+      · cases h
+    · cases h
+
+theorem setResp_at' {s : State} {r : Nat} {rs : Resp} (g : Resp → Resp) (h : s.resps[r]? = some rs) :
+    (setResp s r g).resps[r]? = some (g rs) := by
+  simp [setResp, List.getElem?_modify, h]
+
+/-- `readline()` returned nothing at all: EOF -/
+theorem fpReadline_empty_fin : ∀ (fuel : Nat) (s s' : State) (r k : Nat) (acc : List Cell),
+    fpReadline fuel s r k acc = (s', .data []) → (∃ rs : Resp, s.resps[r]? = some rs) → FinAt s' k := by
+  intro fuel
+  induction fuel with
+  | zero => intro s s' r k acc h; simp [fpReadline] at h
+  | succ fuel ih =>
+    intro s s' r k acc h ⟨rs0, hrs0⟩
+    unfold fpReadline at h
+    simp only [hrs0] at h
+    split at h
+    · rename_i n hn
+      exfalso
+      obtain ⟨g1, g2⟩ := eolIdx_pos _ _ _ hn
+      simp at h
+      rcases h.2.2 with e | e
+      · omega
+      · rw [e] at g2; simp at g2; omega
+    · generalize hrv : recvInto (setResp s r fun x => { x with buf := [] }) r k bufSize = res at h
+      obtain ⟨s2, o⟩ := res
+      cases o with
+      | got =>
+        dsimp only at h
+        have hex : ∃ rs : Resp, s2.resps[r]? = some rs := by
+          have rel := recvInto_rel (setResp s r fun x => { x with buf := [] }) r k bufSize
+          rw [hrv] at rel
+          obtain ⟨b, hb⟩ := rel.rsame _ (setResp_at' (fun x => { x with buf := [] }) hrs0)
+          exact ⟨_, hb⟩
+        exact ih s2 s' r k _ h hex
+      | eof =>
+        simp at h
+        obtain ⟨rfl, _⟩ := h
+        exact (recvInto_eof_fin hrv).1
+      | exc e => cases h
+
+/-- marking response `r` as "stopped at EOF of socket `k`" while the FIN is pending there -/
+theorem setEof_dirty (r k : Nat) (s : State) (hf : (∃ rs : Resp, s.resps[r]? = some rs) → FinAt s k) :
+    Dirty r k s (setResp s r fun x => { x with eofAt := some k }) := by
+  refine ⟨rfl, by simp [setResp], rfl, ?_, fun _ _ => rfl, ?_, fun sk h => ⟨sk, h, rfl, id⟩⟩
+  · intro i hi; simp [setResp, List.getElem?_modify, Ne.symm hi]
+  · intro rs h
+    refine ⟨_, setResp_at' _ h, rfl, rfl, rfl, Or.inl rfl, rfl, rfl, rfl, rfl, rfl, ?_⟩
+    intro k' hk'
+    cases hk'
+    exact Or.inr ⟨rfl, hf ⟨rs, h⟩⟩
+
 theorem skipTrailers_dirty (r k : Nat) : ∀ (fuel : Nat) (s : State), Dirty r k s (skipTrailers fuel s r k).1 := by
   intro fuel
   induction fuel with
@@ -1988,7 +2263,19 @@ theorem skipTrailers_dirty (r k : Nat) : ∀ (fuel : Nat) (s : State), Dirty r k
     | data line =>
       dsimp only
       split
-      · exact rel.toP.dirty.trans (setParse_dirty r k s1 _ (fun x => ⟨rfl, rfl, rfl, rfl, rfl, rfl, rfl, rfl, rfl, rfl⟩))
+      · rename_i hemp
+        have : line = [] := by simpa using hemp
+        subst this
+        refine rel.toP.dirty.trans (setEof_dirty r k s1 ?_)
+        intro ⟨rs1, h1⟩
+        have hex : ∃ rs : Resp, s.resps[r]? = some rs := by
+          have hb : r < s.resps.length := by
+            rw [← rel.rlen]
+            rcases Nat.lt_or_ge r s1.resps.length with h' | h'
+            · exact h'
+            · rw [List.getElem?_eq_none h'] at h1; cases h1
+          exact ⟨_, List.getElem?_eq_getElem hb⟩
+        exact fpReadline_empty_fin _ s s1 r k [] hfr hex
       · split
         · exact rel.toP.dirty.trans (setParse_dirty r k s1 _ (fun x => ⟨rfl, rfl, rfl, rfl, rfl, rfl, rfl, rfl, rfl, rfl⟩))
         · exact rel.toP.dirty.trans (ih s1)
@@ -2042,14 +2329,26 @@ theorem hcDiscardTrailer_dirty (r k : Nat) : ∀ (fuel : Nat) (s : State), Dirty
     intro s
     unfold hcDiscardTrailer
     have d1 := fpReadline_dirty (inboundLen s k + 2) s r k []
-    generalize fpReadline (inboundLen s k + 2) s r k [] = res at d1
+    generalize hfr : fpReadline (inboundLen s k + 2) s r k [] = res at d1
     obtain ⟨s1, o⟩ := res
     cases o with
     | exc e => exact d1
     | data line =>
       dsimp only
       split
-      · exact d1.trans (setParse_dirty r k s1 _ (fun x => ⟨rfl, rfl, rfl, rfl, rfl, rfl, rfl, rfl, rfl, rfl⟩))
+      · rename_i hemp
+        have : line = [] := by simpa using hemp
+        subst this
+        refine d1.trans (setEof_dirty r k s1 ?_)
+        intro ⟨rs1, h1⟩
+        have hex : ∃ rs : Resp, s.resps[r]? = some rs := by
+          have hb : r < s.resps.length := by
+            rw [← d1.rlen]
+            rcases Nat.lt_or_ge r s1.resps.length with h' | h'
+            · exact h'
+            · rw [List.getElem?_eq_none h'] at h1; cases h1
+          exact ⟨_, List.getElem?_eq_getElem hb⟩
+        exact fpReadline_empty_fin _ s s1 r k [] hfr hex
       · split
         · exact d1.trans (setParse_dirty r k s1 _ (fun x => ⟨rfl, rfl, rfl, rfl, rfl, rfl, rfl, rfl, rfl, rfl⟩))
         · exact d1.trans (ih s1)
@@ -3155,7 +3454,7 @@ theorem closeFp_fields (s : State) (r : Nat) :
     (closeFp s r).conns = s.conns ∧ (closeFp s r).socks = s.socks ∧ (closeFp s r).resps.length = s.resps.length ∧
     (∀ i, i ≠ r → (closeFp s r).resps[i]? = s.resps[i]?) ∧
     (∀ rs : Resp, s.resps[r]? = some rs → ∃ rs' : Resp, (closeFp s r).resps[r]? = some rs' ∧ rs'.fp = none ∧
-      rs'.delivered = rs.delivered ∧ rs'.rid = rs.rid ∧ rs'.isHead = rs.isHead) := by
+      rs'.delivered = rs.delivered ∧ rs'.rid = rs.rid ∧ rs'.isHead = rs.isHead ∧ rs'.eofAt = rs.eofAt) := by
   unfold closeFp
   split
   · rename_i h0
@@ -3163,13 +3462,13 @@ theorem closeFp_fields (s : State) (r : Nat) :
   · rename_i x h0
     split
     · rename_i h1
-      exact ⟨rfl, rfl, rfl, fun _ _ => rfl, fun rs h => by rw [h0] at h; cases h; exact ⟨x, h0, h1, rfl, rfl, rfl⟩⟩
+      exact ⟨rfl, rfl, rfl, fun _ _ => rfl, fun rs h => by rw [h0] at h; cases h; exact ⟨x, h0, h1, rfl, rfl, rfl, rfl⟩⟩
     · obtain ⟨e1, e2, e3⟩ := noteClose_fields (setResp s r fun x => { x with fp := none, buf := [] }) ‹Nat›
       rw [e1, e2, e3]
       refine ⟨rfl, rfl, by simp [setResp], ?_, ?_⟩
       · intro i hi; simp [setResp, List.getElem?_modify, Ne.symm hi]
       · intro rs h; rw [h0] at h; cases h
-        exact ⟨{ x with fp := none, buf := [] }, by simp [setResp, List.getElem?_modify, h0], rfl, rfl, rfl, rfl⟩
+        exact ⟨{ x with fp := none, buf := [] }, by simp [setResp, List.getElem?_modify, h0], rfl, rfl, rfl, rfl, rfl⟩
 
 /-- `conn.close()` when `http.client` has no `__response` at hand -/
 theorem connClose_fields_nopending (s : State) (c : Nat) (cn : Conn) (hc : s.conns[c]? = some cn) (hp : cn.pending = none) :
@@ -3195,19 +3494,20 @@ structure HP (k c : Nat) (s0 s : State) : Prop where
   slen : s.socks.length = s0.socks.length
   sother : ∀ j, j ≠ k → s.socks[j]? = s0.socks[j]?
   cother : ∀ c', c' ≠ c → s.conns[c']? = s0.conns[c']?
-  hsame : ∀ sk : Sock, s0.socks[k]? = some sk → ∃ sk' : Sock, s.socks[k]? = some sk' ∧ sk'.held = sk.held
+  hsame : ∀ sk : Sock, s0.socks[k]? = some sk → ∃ sk' : Sock, s.socks[k]? = some sk' ∧ sk'.held = sk.held ∧
+    (sk.after = .fin → sk'.after = .fin)
 
 theorem HP.new (k c : Nat) (s0 : State) (x : Resp) : HP k c s0 { s0 with resps := s0.resps ++ [x] } :=
-  ⟨by simp, fun i hi => List.getElem?_append_left hi, rfl, fun _ _ => rfl, fun _ _ => rfl, fun sk h => ⟨sk, h, rfl⟩⟩
+  ⟨by simp, fun i hi => List.getElem?_append_left hi, rfl, fun _ _ => rfl, fun _ _ => rfl, fun sk h => ⟨sk, h, rfl, id⟩⟩
 
 theorem HP.read {k c : Nat} {s0 s s' : State} {m : List Cell} (h : HP k c s0 s) (rel : ReadRel s0.resps.length k s s' m) :
     HP k c s0 s' :=
   ⟨by rw [rel.rlen, h.rlen], fun i hi => by rw [rel.rother i (by omega), h.rold i hi], by rw [rel.slen, h.slen],
     fun j hj => by rw [rel.sother j hj, h.sother j hj], fun c' hc' => by rw [rel.conns]; exact h.cother c' hc',
     fun sk hsk => by
-      obtain ⟨sk1, g1, g2⟩ := h.hsame sk hsk
-      obtain ⟨sk2, g3, g4⟩ := rel.hsame sk1 g1
-      exact ⟨sk2, g3, by rw [g4, g2]⟩⟩
+      obtain ⟨sk1, g1, g2, g2'⟩ := h.hsame sk hsk
+      obtain ⟨sk2, g3, g4, g4'⟩ := rel.hsame sk1 g1
+      exact ⟨sk2, g3, by rw [g4, g2], fun hf => g4' (g2' hf)⟩⟩
 
 theorem HP.setResp {k c : Nat} {s0 s : State} (h : HP k c s0 s) (g : Resp → Resp) :
     HP k c s0 (setResp s s0.resps.length g) :=
@@ -3241,7 +3541,7 @@ theorem noReader_of_nopending {A : Nat → Attempt → Prop} {f : Focus} {s : St
 
 /-- the head phase ended with the new reader closed: nothing else has happened -/
 theorem hp_safe {s0 s : State} {k c : Nat} (h : HP k c s0 s) (nr : NoReader s0 k)
-    (hr : ∀ rs' : Resp, s.resps[s0.resps.length]? = some rs' → rs'.fp = none ∧ rs'.delivered = [])
+    (hr : ∀ rs' : Resp, s.resps[s0.resps.length]? = some rs' → rs'.fp = none ∧ rs'.delivered = [] ∧ rs'.eofAt = none)
     (hc : ∀ cn' : Conn, s.conns[c]? = some cn' → cn'.sock = none ∨
       ∃ cn : Conn, s0.conns[c]? = some cn ∧ cn'.sock = cn.sock ∧ cn'.pending = cn.pending) : Safe s0 s := by
   have hold : ∀ (i : Nat) (rs' : Resp), s.resps[i]? = some rs' → i ≠ s0.resps.length → s0.resps[i]? = some rs' := by
@@ -3252,7 +3552,19 @@ theorem hp_safe {s0 s : State} {k c : Nat} (h : HP k c s0 s) (nr : NoReader s0 k
       · rw [List.getElem?_eq_none h'] at hi; cases hi
     rw [h.rlen] at this
     rw [← h.rold i (by omega)]; exact hi
-  refine ⟨by rw [h.slen]; exact Nat.le_refl _, by rw [h.rlen]; omega, ?_, ?_, ?_, ?_, ?_⟩
+  refine ⟨by rw [h.slen]; exact Nat.le_refl _, by rw [h.rlen]; omega, ?_, ?_, ?_, ?_, ?_, ?fin, ?eo⟩
+  case fin =>
+    intro j ⟨sk, h1, h2⟩
+    by_cases hjk : j = k
+    · subst hjk
+      obtain ⟨sk', g1, _, g3⟩ := h.hsame sk h1
+      exact ⟨sk', g1, g3 h2⟩
+    · exact ⟨sk, by rw [h.sother j hjk]; exact h1, h2⟩
+  case eo =>
+    intro i rs' k' h1 h2
+    by_cases hi : i = s0.resps.length
+    · subst hi; rw [(hr rs' h1).2.2] at h2; cases h2
+    · exact Or.inl ⟨rs', hold i rs' h1 hi, h2⟩
   rotate_right
   · intro k' sk' h1
     left
@@ -3263,7 +3575,7 @@ theorem hp_safe {s0 s : State} {k c : Nat} (h : HP k c s0 s) (nr : NoReader s0 k
         rcases Nat.lt_or_ge k' s.socks.length with h' | h'
         · exact h'
         · rw [List.getElem?_eq_none h'] at h1; cases h1
-      obtain ⟨sk2, q1, q2⟩ := h.hsame _ (List.getElem?_eq_getElem hk0)
+      obtain ⟨sk2, q1, q2, _⟩ := h.hsame _ (List.getElem?_eq_getElem hk0)
       rw [h1] at q1; cases q1
       exact ⟨_, List.getElem?_eq_getElem hk0, q2⟩
     · exact ⟨sk', by rw [← h.sother k' hkk]; exact h1, rfl⟩
@@ -3282,7 +3594,7 @@ theorem hp_safe {s0 s : State} {k c : Nat} (h : HP k c s0 s) (nr : NoReader s0 k
   · intro i rs' h1
     by_cases hi : i = s0.resps.length
     · subst hi
-      exact Or.inr ⟨List.getElem?_eq_none (Nat.le_refl _), (hr rs' h1).1, (hr rs' h1).2⟩
+      exact Or.inr ⟨List.getElem?_eq_none (Nat.le_refl _), (hr rs' h1).1, (hr rs' h1).2.1⟩
     · exact Or.inl ⟨rs', hold i rs' h1 hi, rfl, rfl, rfl, Or.inr ⟨rfl, rfl, rfl, rfl⟩⟩
   · intro c' cn' k' h1 h2
     left
@@ -3301,7 +3613,7 @@ theorem open_new {A : Nat → Attempt → Prop} {s0 s : State} {c k : Nat} {cn :
     (hcn : ∀ cn' : Conn, s.conns[c]? = some cn' → cn'.sock = none ∨ (cn'.sock = some k ∧ cn'.pending = some s0.resps.length))
     (hatt : A rn.rid a) (hhd : a.head = some h) (hstat : rn.status = h.status) (hfp : rn.fp = some k) (hdel : rn.delivered = [])
     (hlen : rn.length = initLength h rn.isHead) (hstream : rn.buf ++ sk'.inbound <+: postCells rn.rid a h)
-    (hch : rn.chunked = h.chunked) (hcl : rn.chunkLeft = none) (hhl : rn.hcLeft = none) : Prov A s := by
+    (hch : rn.chunked = h.chunked) (hcl : rn.chunkLeft = none) (hhl : rn.hcLeft = none) (heo : rn.eofAt = none) : Prov A s := by
   have nr := noReader_of_nopending p hc hk hp
   have hkb : k < s0.socks.length := p.sockB c cn k hc hk
   have hold : ∀ (i : Nat) (rs' : Resp), s.resps[i]? = some rs' → i ≠ s0.resps.length → s0.resps[i]? = some rs' := by
@@ -3321,12 +3633,30 @@ theorem open_new {A : Nat → Attempt → Prop} {s0 s : State} {c k : Nat} {cn :
       · rw [e] at h2; cases h2
       · rw [e1] at h2; cases h2; exact Or.inl ⟨rfl, rfl, e2⟩
     · rw [hp'.cother c' hcc] at h1; exact Or.inr ⟨hcc, h1⟩
-  refine ⟨?_, ?_, ?_, ?_, ?_, ?_, (by intro _ _ _ h; cases h), ?_⟩
+  refine ⟨?_, ?_, ?_, ?_, ?_, ?_, (by intro _ _ _ h; cases h), ?_, ?eofB⟩
+  case eofB =>
+    intro i rs' k' h1 h2
+    by_cases hi : i = s0.resps.length
+    · subst hi; rw [hrn] at h1; cases h1; rw [heo] at h2; cases h2
+    · obtain ⟨q1, q2⟩ := p.eofB i rs' k' (hold i rs' h1 hi) h2
+      refine ⟨by rw [hp'.slen]; exact q1, ?_⟩
+      rcases q2 with ⟨sk, g1, g2⟩ | q2
+      · left
+        by_cases hkk : k' = k
+        · subst hkk
+          obtain ⟨sk3, g3, _, g5⟩ := hp'.hsame sk g1
+          exact ⟨sk3, g3, g5 g2⟩
+        · exact ⟨sk, by rw [hp'.sother k' hkk]; exact g1, g2⟩
+      · right
+        intro c' cn' hc' hs'
+        rcases holdc c' cn' k' hc' hs' with ⟨_, rfl, _⟩ | ⟨_, h0⟩
+        · exact q2 c cn hc hk
+        · exact q2 c' cn' h0 hs'
   rotate_right
   · intro k' sk2 h1
     by_cases hkk : k' = k
     · subst hkk
-      obtain ⟨sk3, q1, q2⟩ := hp'.hsame _ (List.getElem?_eq_getElem hkb)
+      obtain ⟨sk3, q1, q2, _⟩ := hp'.hsame _ (List.getElem?_eq_getElem hkb)
       rw [h1] at q1; cases q1
       rw [q2]; exact p.heldB k' _ (List.getElem?_eq_getElem hkb)
     · rw [hp'.sother k' hkk] at h1; exact p.heldB k' sk2 h1
@@ -3513,9 +3843,9 @@ theorem getResponse_prov {A : Nat → Attempt → Prop} {s s' : State} {c k rid 
         obtain ⟨e1, e2, e3, e4, e5⟩ := closeFp_fields sE sF.resps.length
         refine (hp_safe hpE.closeFp nr ?_ ?_).prov pF
         · intro rs' hrs'
-          obtain ⟨rs'', g1, g2, g3, _⟩ := e5 _ hrE
+          obtain ⟨rs'', g1, g2, g3, _, _, g6⟩ := e5 _ hrE
           rw [g1] at hrs'; cases hrs'
-          exact ⟨g2, by rw [g3, ← hr0]⟩
+          exact ⟨g2, by rw [g3, ← hr0], by rw [g6, ← hr0]⟩
         · intro cn' hcn'
           rw [e1] at hcn'
           rcases hcE cn' hcn' with e | rfl
@@ -3566,7 +3896,7 @@ theorem getResponse_prov {A : Nat → Attempt → Prop} {s s' : State} {c k rid 
           (∀ cn' : Conn, s5.conns[c]? = some cn' → cn'.sock = none ∨ (cn'.sock = some k ∧ cn'.pending = some sF.resps.length)) →
           Prov A s5 := by
         intro s5 hp5 hr5 hs5 hc5
-        refine open_new (a := a) (h := hd) pF hcn hk' hpend hp5 hr5 hs5 hc5 ?_ hh0 rfl ?_ ?_ ?_ ?_ rfl ?_ ?_
+        refine open_new (a := a) (h := hd) pF hcn hk' hpend hp5 hr5 hs5 hc5 ?_ hh0 rfl ?_ ?_ ?_ ?_ rfl ?_ ?_ ?_
         · show A r0.rid a; rw [hrid]; exact hA
         · show r0.fp = some k; rw [← hr0]
         · show r0.delivered = []; rw [← hr0]
@@ -3574,6 +3904,7 @@ theorem getResponse_prov {A : Nat → Attempt → Prop} {s s' : State} {c k rid 
         · show b ++ sk2.inbound <+: postCells r0.rid a hd; rw [hrid]; exact hstream
         · show r0.chunkLeft = none; rw [← hr0]
         · show r0.hcLeft = none; rw [← hr0]
+        · show r0.eofAt = none; rw [← hr0]
       dsimp only at h
       have hfin : Prov A
           (if (hd.close || ((initLength hd rc.isHead).isNone && !hd.chunked)) = true then
@@ -3615,7 +3946,8 @@ theorem getResponse_prov {A : Nat → Attempt → Prop} {s s' : State} {c k rid 
 
 /-- the leased connection is either not connected or its kernel buffer is empty (the checkout probe) -/
 def Lease (s : State) (c : Nat) : Prop :=
-  ∀ (cn : Conn) (k : Nat), s.conns[c]? = some cn → cn.sock = some k → ∃ sk : Sock, s.socks[k]? = some sk ∧ sk.inbound = []
+  ∀ (cn : Conn) (k : Nat), s.conns[c]? = some cn → cn.sock = some k →
+    ∃ sk : Sock, s.socks[k]? = some sk ∧ sk.inbound = [] ∧ sk.after ≠ .fin
 
 /-- `__response`, if any, is not a closed response (so `forgetClosedPending` does nothing) -/
 def Settled (s : State) (c : Nat) : Prop :=
@@ -3831,7 +4163,7 @@ theorem serverNow_held (rid : Nat) (a : Attempt) : serverNow rid a ++ serverHeld
 closing the connection (which `urlopen` is about to do) restores the invariant -/
 theorem send_dirty_close {A : Nat → Attempt → Prop} {s : State} {c k r0 : Nat} {cn : Conn} (g : Sock → Sock) (e : Ev)
     (p : Prov A s) (hc : s.conns[c]? = some cn) (hk : cn.sock = some k) (hp : cn.pending = some r0)
-    (hh : ∀ x, (g x).held = x.held ∨ NoHd (g x).held) :
+    (hh : ∀ x, (g x).held = x.held ∨ NoHd (g x).held) (hnf : ¬ FinAt s k) :
     Prov A (connClose (setSock (logEv s e) k g) c) := by
   have p1 : Prov A (connClose s c) := (connClose_safe s c).prov p
   have nr : NoReader (connClose s c) k := by
@@ -3842,7 +4174,9 @@ theorem send_dirty_close {A : Nat → Attempt → Prop} {s : State} {c k r0 : Na
     have hcl := connClose_closes_pending hc hp
     rw [respFpClosed_iff] at hcl
     rw [hcl rs' hi] at hfp; cases hfp
-  have p2 : Prov A (setSock (connClose s c) k g) := (setSock_safe _ k g (Or.inr nr) hh).prov p1
+  have hnf' : ¬ FinAt (connClose s c) k := by
+    intro ⟨sk, h1, h2⟩; rw [connClose_socks] at h1; exact hnf ⟨sk, h1, h2⟩
+  have p2 : Prov A (setSock (connClose s c) k g) := (setSock_safe _ k g (Or.inr nr) hh (Or.inr hnf')).prov p1
   refine (safe_core ?_ ?_ ?_).prov p2
   · show (connClose (setSock (logEv s e) k g) c).conns = (connClose s c).conns
     rw [connClose_conns, connClose_conns]; rfl
@@ -3853,7 +4187,8 @@ theorem send_dirty_close {A : Nat → Attempt → Prop} {s : State} {c k r0 : Na
 theorem connect_ok_safe {A : Nat → Attempt → Prop} {f : Focus} {s : State} (p : ProvF A s f) (c : Nat) (x : Sock) (ev : Ev) (b : Bool)
     (hx : x.held = []) :
     Safe s (setConn (logEv { s with socks := s.socks ++ [x] } ev) c fun y => { y with sock := some s.socks.length, proxyConnected := b }) := by
-  refine ⟨by simp [setConn, logEv], Nat.le_refl _, st_of_eq rfl, ?_, ?_, ?_, (appendSock_safe s x hx).hd⟩
+  refine ⟨by simp [setConn, logEv], Nat.le_refl _, st_of_eq rfl, ?_, ?_, ?_, (appendSock_safe s x hx).hd,
+    (appendSock_safe s x hx).fin, eo_of_eq rfl⟩
   · intro i rs' k' sk h1 h2 h3
     refine ⟨sk, ?_, rfl⟩
     have hk : k' < s.socks.length := by
@@ -3897,14 +4232,14 @@ theorem connect_spec {A : Nat → Attempt → Prop} {s s' : State} {c : Nat} {a 
     (p : Prov A s) (hc : s.conns[c]? = some cn) (h : connect s c a = (s', ek)) :
     Prov A s' ∧ s'.resps = s.resps ∧ (∀ e, ek = .error e → s'.conns = s.conns) ∧
     (∀ k, ek = .ok k → s'.conns[c]? = some { cn with sock := some k, proxyConnected := s.proxy } ∧
-      (∃ sk : Sock, s'.socks[k]? = some sk ∧ sk.inbound = []) ∧ s.socks.length ≤ k) := by
+      (∃ sk : Sock, s'.socks[k]? = some sk ∧ sk.inbound = [] ∧ sk.after ≠ .fin) ∧ s.socks.length ≤ k) := by
   unfold connect at h
   have ps : Safe s (logEv { s with socks := s.socks ++ [{ seg := a.seg }] } (.connect s.socks.length)) :=
     (appendSock_safe s _ rfl).trans (logEv_safe _ _)
   cases hcon : a.connect <;> simp only [hcon] at h <;> cases h
   · refine ⟨(connect_ok_safe p c _ _ _ rfl).prov p, rfl, (by intro e he; cases he), ?_⟩
     intro k hk; cases hk
-    refine ⟨by simp [setConn, logEv, List.getElem?_modify, hc], ⟨{ seg := a.seg }, ?_, rfl⟩, Nat.le_refl _⟩
+    refine ⟨by simp [setConn, logEv, List.getElem?_modify, hc], ⟨{ seg := a.seg }, ?_, rfl, by simp⟩, Nat.le_refl _⟩
     simp [setConn, logEv]
   · exact ⟨(ps.trans (logEv_safe _ _)).prov p, rfl, fun _ _ => rfl, by intro k hk; cases hk⟩
   · exact ⟨(ps.trans (logEv_safe _ _)).prov p, rfl, fun _ _ => rfl, by intro k hk; cases hk⟩
@@ -3920,22 +4255,24 @@ def Sent (A : Nat → Attempt → Prop) (s' : State) (c k rid : Nat) (a : Attemp
 
 theorem send_step {A : Nat → Attempt → Prop} {t : State} {c k : Nat} {cnt : Conn} {skt : Sock}
     (p : Prov A t) (hc : t.conns[c]? = some cnt) (hk : cnt.sock = some k) (hsk : t.socks[k]? = some skt)
-    (hin : skt.inbound = []) (hst : Settled t c) (rid : Nat) (a : Attempt) :
+    (hin : skt.inbound = []) (hnf : skt.after ≠ .fin) (hst : Settled t c) (rid : Nat) (a : Attempt) :
     Sent A (setSock (logEv t (.send k)) k fun sk =>
         { sk with inbound := sk.inbound ++ (sk.held ++ serverNow rid a), held := serverHeld rid a, after := a.after })
       c k rid a := by
   refine ⟨settled_congr hst rfl (fun cn' h => ⟨cn', h, rfl⟩), cnt, hc, hk, ?_⟩
+  have hnf' : ¬ FinAt t k := by
+    intro ⟨sk, h1, h2⟩; rw [hsk] at h1; cases h1; exact hnf h2
   cases hp : cnt.pending with
   | none =>
     left
     have nr := noReader_of_nopending p hc hk hp
-    refine ⟨rfl, ((logEv_safe t _).trans (setSock_safe _ k _ (Or.inr nr) (fun x => Or.inr (serverHeld_noHd rid a)))).prov p, ?_⟩
+    refine ⟨rfl, ((logEv_safe t _).trans (setSock_safe _ k _ (Or.inr nr) (fun x => Or.inr (serverHeld_noHd rid a)) (Or.inr hnf'))).prov p, ?_⟩
     refine ⟨{ skt with inbound := skt.inbound ++ (skt.held ++ serverNow rid a), held := serverHeld rid a, after := a.after },
       skt.held, ?_, p.heldB k skt hsk, (by simp [hin])⟩
     simp [setSock, logEv, List.getElem?_modify, hsk]
   | some r0 =>
     right
-    exact ⟨rfl, send_dirty_close _ _ p hc hk hp (fun x => Or.inr (serverHeld_noHd rid a))⟩
+    exact ⟨rfl, send_dirty_close _ _ p hc hk hp (fun x => Or.inr (serverHeld_noHd rid a)) hnf'⟩
 
 theorem connRequest_spec {A : Nat → Attempt → Prop} {s s' : State} {c rid : Nat} {a : Attempt} {ek : Except Exc Nat}
     (p : Prov A s) (hl : Lease s c) (h : connRequest s c rid a = (s', ek)) :
@@ -3985,7 +4322,7 @@ theorem connRequest_spec {A : Nat → Attempt → Prop} {s s' : State} {c rid : 
           simp only [hse] at h; cases h
           refine ⟨(by intro e he; cases he), ?_⟩
           intro k' hk'; cases hk'
-          exact send_step p1 hc1 hsock (by rw [hsk1]; exact g1) g2 hst1 rid a
+          exact send_step p1 hc1 hsock (by rw [hsk1]; exact g1) g2.1 g2.2 hst1 rid a
       | none =>
         simp only [hsock] at h
         generalize hco : connect s1 c a = res at h
@@ -4016,7 +4353,7 @@ theorem connRequest_spec {A : Nat → Attempt → Prop} {s s' : State} {c rid : 
             simp only [hse] at h; cases h
             refine ⟨(by intro e he; cases he), ?_⟩
             intro k' hk'; cases hk'
-            exact send_step p2 hc2 rfl g1 g2 hst2 rid a
+            exact send_step p2 hc2 rfl g1 g2.1 g2.2 hst2 rid a
 
 /-! ### `_make_request` -/
 
@@ -4113,7 +4450,7 @@ theorem makeRequest_spec {A : Nat → Attempt → Prop} {s s' : State} {c rid : 
       · rename_i cn hcn
         split at h
         · rename_i k hk
-          obtain ⟨sk, hsk, hin⟩ := hl1 cn k hcn hk
+          obtain ⟨sk, hsk, hin, _⟩ := hl1 cn k hcn hk
           exact tail k cn sk p1 hcn hk hsk (Or.inr hin) h
         · exact bad _ h
       · exact bad _ h
@@ -4151,10 +4488,11 @@ theorem getConn_lease {s s1 : State} {c : Nat} (h : getConn s = (s1, .ok c)) : L
           split at hd
           · exact absurd rfl hd
           · rename_i sk hsk
-            refine ⟨sk, hsk, ?_⟩
-            cases hin : sk.inbound with
-            | nil => rfl
-            | cons x xs => simp [hin] at hd
+            refine ⟨sk, hsk, ?_, ?_⟩
+            · cases hin : sk.inbound with
+              | nil => rfl
+              | cons x xs => simp [hin] at hd
+            · intro haf; simp [haf] at hd
 
 theorem rnr_not_noCleanup (u : Bool) (rt : Retry) (m : Bool) :
     handleError u rt m (translateRecv (exc Gen.cResponseNotReady)).cls ≠ .noCleanup := by
@@ -4313,7 +4651,7 @@ theorem step_prov {A : Nat → Attempt → Prop} {s : State} (op : Op) (p : Prov
   | closePool => exact closePool_prov p
 
 theorem init_prov (A : Nat → Attempt → Prop) (n : Nat) (b pr : Bool) : Prov A (init n b pr) := by
-  refine ⟨?_, ?_, ?_, ?_, ?_, ?_, (by intro _ _ _ h; cases h), ?_⟩ <;> simp [init]
+  refine ⟨?_, ?_, ?_, ?_, ?_, ?_, (by intro _ _ _ h; cases h), ?_, ?_⟩ <;> simp [init]
 
 /-! ## histories -/
 
